@@ -126,6 +126,7 @@ type PState struct {
 	SM       PSM       `json:"sm"`
 	Gate     PGate     `json:"gate"`
 	Released bool      `json:"released"`
+	Tid      string    `json:"tid"`
 }
 
 // Args: uniform argument record of a call / event.
@@ -398,6 +399,7 @@ func (r *Recorder) project(te pt.TableEngine, t *pt.Table) (ps PState) {
 		return ps
 	}
 	s := t.State
+	ps.Tid = t.ID
 	ps.Status, ps.Gc, ps.Start = string(s.Status), s.GameCount, s.StartAt != pt.UnsetValue
 	ps.N, ps.MinP, ps.Rule, ps.Mode, ps.AT = t.Meta.TableMaxSeatCount, t.Meta.TableMinPlayerCount, t.Meta.Rule, t.Meta.Mode, t.Meta.ActionTime
 	for _, p := range s.PlayerStates {
